@@ -100,6 +100,10 @@ def run(tier, seed):
     for th in ((1, 4) if thorough else (1, 4)):
         scen.append({"kind": "bulk", "threads": th, "total": bulk_total - bulk_total % th, "start_id": MAXID - 10, "start_serial": 2 ** 32 - 2, "creation": 7})
     scen.append({"kind": "bulk", "threads": 2, "total": MAXID + 10, "start_id": 1, "start_serial": 0, "creation": 2 ** 32 - 1})
+    # references in bulk: more than 2^18 of them (the first word's significant width in the old reference format), pairwise distinct,
+    # their words exactly the counter values (PidAlloc!RefWordsAreCounter)
+    for th in (1, 4):
+        scen.append({"kind": "bulk_refs", "threads": th, "total": 300000, "start_ctr": 5})
     # sequential allocations across several wraps
     scen.append({"kind": "sequential", "threads": 1, "allocs": 40, "start_id": MAXID - 3, "start_serial": 2 ** 32 - 2, "creation": 9, "schedule": []})
     sp = os.path.join(lib.outdir(PID), "scenarios.ndjson")
@@ -114,6 +118,14 @@ def run(tier, seed):
     # adversarial schedules must be infeasible on the real allocator
     for s, sm in zip(scen, summ):
         v.case(json.dumps(s))
+        if s["kind"] == "bulk_refs":
+            case = {"threads": s["threads"], "references": sm["made"]}
+            if sm["duplicates"]:
+                v.violation("the same reference was made twice", {**case, "duplicates": sm["duplicates"], "first": sm["first_duplicate"]})
+            elif not sm["words_are_the_counter_values"] or sm["wrong_shape"]:
+                v.violation("the words of the references made are not the successive values of the node's counter, each once: references (and unlink ids drawn from the same counter) will coincide",
+                            {**case, "first_deviation": sm["first_deviation"], "references_without_three_words": sm["wrong_shape"]})
+            continue
         if s["kind"] == "bulk":
             case = {"threads": s["threads"], "allocations": sm["issued"], "from": [s["start_id"], s["start_serial"]]}
             if sm["duplicates"]:
